@@ -98,6 +98,9 @@ func cmdCheck(args []string) int {
 	}
 	t0 := time.Now()
 	V, err := newVerifier(*tier)
+	if os.Getenv("BXV_TIMING") != "" {
+		fmt.Fprintf(os.Stderr, "load: %.1fs\n", time.Since(t0).Seconds())
+	}
 	if err != nil {
 		// the tree does not load (does not compile with the verif tag): every
 		// obligation is undecided; report as a tool failure, not a violation
@@ -115,11 +118,23 @@ func cmdCheck(args []string) int {
 
 func (V *Verifier) runProperty(spec *propSpec) *checkResult {
 	res := &checkResult{bounded: map[string]any{}}
+	t0 := time.Now()
 	obls := V.encodeFuncs(spec.Funcs)
+	if os.Getenv("BXV_TIMING") != "" {
+		fmt.Fprintf(os.Stderr, "encode: %.1fs\n", time.Since(t0).Seconds())
+	}
 	obls = selectForProperty(spec.ID, obls)
 	obls = append(obls, V.lemmaObligations(spec)...)
 	res.obls = obls
+	t1 := time.Now()
 	V.discharge(obls)
+	if os.Getenv("BXV_TIMING") != "" {
+		fmt.Fprintf(os.Stderr, "discharge: %.1fs\n", time.Since(t1).Seconds())
+		sort.Slice(obls, func(i, j int) bool { return obls[i].Res.Secs > obls[j].Res.Secs })
+		for i := 0; i < 8 && i < len(obls); i++ {
+			fmt.Fprintf(os.Stderr, "  %.2fs (gen %.2fs) %s %s\n", obls[i].Res.Secs, obls[i].GenSecs, obls[i].Res.Verdict, obls[i].Name)
+		}
+	}
 	// extra engines
 	for _, x := range spec.Extras {
 		V.runExtra(spec, x, res)
